@@ -60,6 +60,7 @@ def main():
     skip_done = False
     expect_pass = False
     tests_only = False
+    save_corpus = False
     respath_override = None
     i = 0
     while i < len(args):
@@ -79,6 +80,8 @@ def main():
             tests_only = True; check_tests = True; i += 1
         elif args[i] == "--expect-pass":
             expect_pass = True; i += 1
+        elif args[i] == "--save-corpus":
+            save_corpus = True; i += 1
         elif args[i] == "--results":
             respath_override = args[i + 1]; i += 2
         else:
@@ -132,6 +135,13 @@ def main():
                 if r.returncode not in (0, 1):
                     detail = "rc=%d %s" % (r.returncode, r.stdout[-300:])
                 res[pid] = dict(caught=caught, sig=detail, wall=round(time.time() - t0, 1))
+                if save_corpus and caught:
+                    # keep the failing case as a regression case of that property (it passes on the unchanged tree)
+                    vm = re.search(r"VIOLATION property=%s replay=(\S+\.choices)" % pid, r.stdout)
+                    if vm and os.path.exists(vm.group(1)):
+                        os.makedirs(os.path.join(VERIF, "corpus", pid), exist_ok=True)
+                        shutil.copy(vm.group(1), os.path.join(VERIF, "corpus", pid, m["name"] + ".choices"))
+                        res[pid]["saved_case"] = "corpus/%s/%s.choices" % (pid, m["name"])
                 if expect_pass:
                     alarm = r.returncode != 0 or "VIOLATION" in r.stdout
                     res[pid]["alarm"] = alarm
